@@ -118,6 +118,9 @@ type request struct {
 	SProv     []mwSpec    `json:"sprov"`
 	SCtor     []mwSpec    `json:"sctor"`
 	Shared    bool        `json:"shared"`
+	// SCtorViaProviderSpare > 0: the subscriber's constructor list is what GetMiddleware() of a provider returns whose own
+	// list was passed as a slice with that much spare capacity (GetMiddleware hands out a copy: exact capacity)
+	SCtorViaProviderSpare int `json:"sctor_via_provider_spare"`
 	Async     bool        `json:"async"` // rpc: call <Method>Async (programs generated with -gen go:async)
 	ECtor     bool        `json:"ector"` // build the subscriber with New<Scope>ErrorableSubscriber
 }
@@ -864,6 +867,11 @@ func (e *exp) scope(q *request) interface{} {
 	poison, err := mk(q.Poison, subArgTypes, style{}, "poison")
 	if err != nil {
 		return bad("%v", err)
+	}
+	if q.SCtorViaProviderSpare > 0 && len(sctor) > 0 {
+		roomy := make([]frugal.ServiceMiddleware, len(sctor), len(sctor)+q.SCtorViaProviderSpare)
+		copy(roomy, sctor)
+		sctor = frugal.NewFScopeProvider(nil, nil, nil, roomy...).GetMiddleware()
 	}
 	e.built["herr"] = e.dumpErr(herr)
 	if bv, err := e.reg.Build(valT, q.Value); err == nil {
